@@ -25,6 +25,50 @@ OUT_POSITIONAL = {"np.subtract", "np.add", "np.multiply", "np.true_divide", "np.
 SELF_MUTATORS = {"convert_to_units", "convert_to_base", "convert_to_cgs", "convert_to_mks", "convert_to_equivalent"}
 
 
+_MUTATOR_CACHE = {}
+SYNTAX_INVOKED = {"__new__", "__init__", "__setstate__", "__array_finalize__", "__setitem__", "__delitem__", "__iadd__", "__isub__", "__imul__", "__itruediv__", "__ifloordiv__", "__ipow__", "__imod__", "__iand__", "__ior__", "__ixor__", "__reduce__"}
+MUTATOR_CLASSES = ("Unit", "unyt_array", "unyt_quantity")
+
+
+def discovered_mutators(repo):
+    """names of the methods of Unit / unyt_array that write their receiver (an attribute store on self, an in-place
+    NumPy call on self's data, or a call of another such method on self): derived from the source by fixpoint, so a
+    new or renamed mutator is known without a table.  Properties and syntax-invoked dunders are not callable by name
+    and are left out."""
+    if repo is None:
+        return set()
+    key = id(repo)
+    if key in _MUTATOR_CACHE:
+        return _MUTATOR_CACHE[key]
+    _MUTATOR_CACHE[key] = set()  # recursion guard: discovery runs with the seed set
+    found = set()
+    cands = []
+    for mod in repo.mods(only_anchor=True):
+        for q, fns in mod.funcs.items():
+            if "." not in q or q.split(".")[0] not in MUTATOR_CLASSES:
+                continue
+            for f in fns:
+                name = q.split(".")[1]
+                if name in SYNTAX_INVOKED or any(norm(d) in ("property", "cached_property") or norm(d).endswith(".setter") for d in f.node.decorator_list):
+                    continue
+                cands.append((name, f))
+    changed = True
+    while changed:
+        changed = False
+        for name, f in cands:
+            if name in found:
+                continue
+            eff = Effects(f, mutators=SELF_MUTATORS | found)
+            for aliases, text, node in eff.writes(f.node):
+                # a write to the receiver itself or to its data; stores of private memo attributes are not mutation
+                if any(a == "self" or (a.startswith("self.") and not a.split(".")[1].startswith("_")) for a in aliases):
+                    found.add(name)
+                    changed = True
+                    break
+    _MUTATOR_CACHE[key] = found
+    return found
+
+
 class Effects:
     """alias_of returns root names; self.same[name] tells whether a local name
     may be the *same object* as a root (plain name copies) - only then does an
@@ -33,8 +77,9 @@ class Effects:
 
     augassign_names = True  # `x *= ..` on a name aliasing an array is an in-place write
 
-    def __init__(self, fn, roots=None):
+    def __init__(self, fn, roots=None, mutators=None):
         self.fn = fn
+        self.mutators = mutators if mutators is not None else SELF_MUTATORS | discovered_mutators(getattr(getattr(fn, "mod", None), "repo", None))
         self.same = {}
         self.roots = set(roots if roots is not None else fn.params) | ({fn.vararg} if fn.vararg else set())
         self.origins = {}
@@ -175,7 +220,7 @@ class Effects:
                 if f in ("super().__setitem__", "super().__setstate__", "super().__iadd__") and "self" in self.roots:
                     yield {"self"}, norm(n)[:80], n
                 if isinstance(n.func, ast.Attribute):
-                    if n.func.attr in INPLACE_METHODS or n.func.attr in SELF_MUTATORS:
+                    if n.func.attr in INPLACE_METHODS or n.func.attr in self.mutators:
                         a = self.alias_of(n.func.value)
                         if a:
                             yield a, norm(n)[:80], n
